@@ -3,8 +3,7 @@
 HOOK_COMMITS = ["736bf48", "2170c4f"]
 
 # Properties not (yet) claimed. Kept current as checks land.
-NOT_APPLICABLE = {p: "check not built yet in this session (see DESIGN.md section 8, build order); will be claimed once its harness package exists"
-                  for p in ["C%02d" % i for i in range(1, 21)]}
+NOT_APPLICABLE = {}
 
 TREE_ASSUME = ["verif hook VerifShape is a faithful read-only walk of the real nodes (container/tree/verif_export.go)",
                "reference model treekit.Model (sorted slice + sort.Search) is correct",
@@ -226,6 +225,18 @@ CHECKS = {
         "rule": ("plans: 1-5 registrations, 0-12 trigger events, one stop; non-trivial = a trigger call landed while its function was running, or a registration raced with the stop; distinct = distinct plan JSON; R=3/10"),
         "assumptions": ["testing/synctest", "rapid v1.3.0; go1.26.8"],
         "jobs": [{"pkg": "c17group", "kinds": ["group"], "scale_thorough": 10, "shards_thorough": 16, "replay_reps": 30}],
+    },
+    "C19": {
+        "level": "exploration",
+        "level_text": ("Every pure helper is checked against an independent reference or validity predicate (outputs the documentation allows are never rejected): (i) small-scope exhaustive enumeration - by parametricity all boolean vectors, "
+                       "all set partitions and all weak orders up to length 6 (quick) / 8 (thorough), all (len, chunkSize) and (len, idx, n) arguments; (ii) rapid-generated larger inputs with many ties, extreme integers for Abs/Clamp over 5 integer widths, "
+                       "error chains for WithStack; (iii) sampling: ALL (n <= 6, k <= n+1) for RSample/RSampleSlice/RSampleIterator/RSampleStream and RShuffle with a fixed-seed chi-square test (subset and position frequencies, tail probability ~1e-9)"),
+        "level_note": "Uniformity is a statistical statement decided at a 1e-9 threshold with seeded generators (deterministic per VERIF_SEED); a bias below the test's resolution passes. Files guarded by !go1.21 are not compiled.",
+        "technique": "property-based testing (rapid) + small-scope exhaustive enumeration against reference implementations; seeded chi-square for sampling",
+        "rule": ("kinds helper (rapid), helper-exhaustive (enumerated), sampling (enumerated configurations x N samples). non-trivial = input length >= 2 with a duplicate/tie, or a boundary argument (k in {0, >= n}, chunkSize <= 0, removal reaching the end, "
+                 "extreme integer, already-wrapped error); sampling: n >= 2; distinct = distinct case JSON"),
+        "assumptions": ["reference implementations in c19pure", "math/rand with fixed seeds", "rapid v1.3.0; go1.26.8"],
+        "jobs": [{"pkg": "c19pure", "kinds": ["helper", "helper-exhaustive", "sampling"], "scale_thorough": 10, "shards_thorough": 16}],
     },
     "C04": {
         "level": "exploration",
